@@ -5,6 +5,7 @@
 
 use crate::dto::{self, List, Timestamp, TimestampFormat};
 
+use std::collections::VecDeque;
 use std::fmt;
 
 use quick_xml::Reader;
@@ -37,8 +38,8 @@ pub struct Deserializer<'xml> {
     /// peeked event
     peeked: Option<DeEvent<'xml>>,
 
-    /// store an extra event
-    next_slot: Option<DeEvent<'xml>>,
+    /// store extra events
+    next_slot: VecDeque<DeEvent<'xml>>,
 }
 
 /// XML deserialization result
@@ -100,33 +101,52 @@ impl<'xml> Deserializer<'xml> {
         Self {
             inner: Reader::from_reader(xml),
             peeked: None,
-            next_slot: None,
+            next_slot: VecDeque::new(),
         }
     }
 
     /// Reads the next event
+    ///
+    /// Character data, CDATA sections and the fragments around comments and processing
+    /// instructions denote one string: they are delivered as a single text event.
     fn read_event(&mut self) -> DeResult<DeEvent<'xml>> {
-        if let Some(ev) = self.next_slot.take() {
+        if let Some(ev) = self.next_slot.pop_front() {
             return Ok(ev);
         }
+        let mut text: Option<BytesText<'xml>> = None;
         loop {
             let ev = self.inner.read_event().map_err(invalid_xml)?;
             let de = match ev {
+                Event::Text(x) => {
+                    text = Some(join_text(text.take(), x)?);
+                    continue;
+                }
+                Event::CData(x) => {
+                    let x = x.escape().map_err(|e| invalid_xml(e.into()))?;
+                    text = Some(join_text(text.take(), x)?);
+                    continue;
+                }
+
+                // ignore the others
+                Event::Comment(_) | Event::Decl(_) | Event::PI(_) | Event::DocType(_) => continue,
+
                 Event::Start(x) => DeEvent::Start(x),
                 Event::End(x) => DeEvent::End(x),
-                Event::Text(x) => DeEvent::Text(x),
                 Event::Eof => DeEvent::Eof,
 
                 Event::Empty(x) => {
                     // translate `<CSV/>` to `<CSV></CSV>`
-                    self.next_slot = Some(DeEvent::End(x.to_end().into_owned()));
+                    self.next_slot.push_back(DeEvent::End(x.to_end().into_owned()));
                     DeEvent::Start(x)
                 }
-
-                // ignore the others
-                Event::Comment(_) | Event::CData(_) | Event::Decl(_) | Event::PI(_) | Event::DocType(_) => continue,
             };
-            break Ok(de);
+            break match text {
+                Some(text) => {
+                    self.next_slot.push_front(de);
+                    Ok(DeEvent::Text(text))
+                }
+                None => Ok(de),
+            };
         }
     }
 
@@ -312,6 +332,15 @@ impl fmt::Debug for Deserializer<'_> {
     fn fmt(&self, f: &mut fmt::Formatter<'_>) -> fmt::Result {
         f.debug_struct("Deserializer").finish_non_exhaustive()
     }
+}
+
+/// Appends a text fragment (escaped form) to the text read so far
+fn join_text<'xml>(prev: Option<BytesText<'xml>>, next: BytesText<'xml>) -> DeResult<BytesText<'xml>> {
+    let Some(prev) = prev else { return Ok(next) };
+    let mut buf = prev.into_inner().into_owned();
+    buf.extend_from_slice(&next);
+    let string = String::from_utf8(buf).map_err(|_| DeError::InvalidContent)?;
+    Ok(BytesText::from_escaped(string))
 }
 
 /// helper
